@@ -86,6 +86,9 @@ func (r *Recorder) blocksJSON(s *Scenario, blocks []BlockRec) []line {
 		if b.Frame == 1 {
 			r.Stats["epoch_first_blocks"]++
 		}
+		if len(b.Applied) > 260 {
+			r.Stats["blocks_over_260_events"]++
+		}
 	}
 	return out
 }
